@@ -378,7 +378,7 @@ def nexthop_bytes(v):
     afi, safi = v['afi_safi']
     nh = v.get('nexthop')
     if safi == 128:
-        return b'\x00' * 8 + ip_bytes(nh['str'])
+        return rd_bytes(nh.get('rd') or '0:0') + ip_bytes(nh['str'])
     if nh in ('', None):
         return b''
     b = ip_bytes(nh)
